@@ -89,6 +89,13 @@ Theorem C11_decrypt_eq_bie1 :
 Proof. exact decrypt_eq_bie1. Qed.
 Print Assumptions C11_decrypt_eq_bie1.
 
+(* ... and from_bytes is the independent split of a serialised ciphertext (length guard for EVERY length, magic,
+   embedded key, offsets 4 / 37 / len-32) *)
+Theorem C11_from_bytes_eq_split :
+  forall O s hp, from_bytes O s hp = of_option (option_map ct_of_split (bie1_split (eo_ec O) hp s)).
+Proof. exact from_bytes_eq_split. Qed.
+Print Assumptions C11_from_bytes_eq_split.
+
 (* 4. MAC logic: unconditional rejections *)
 Theorem C11_mac_flip_rejected :
   forall O c d pk m mac',
